@@ -3,6 +3,7 @@
 (* abstract inputs; TLC re-evaluates the requirement (Sem.tla / JsonText.tla) on them.      *)
 (*   {op:"validate", schema, env, opt, doc, ok}                       C01-C03 (random tier) *)
 (*   {op:"example",  schema, env, opt, bytes, value, parsed}          C15                    *)
+(*   {op:"regex_example", re, example}                                C18                    *)
 EXTENDS Integers, Sequences, TLC, Json, Sem
 CONSTANT TraceFile
 J == INSTANCE JsonText WITH MaxDepth <- 100000
@@ -28,6 +29,7 @@ Problem(e) ==
   CASE e.op = "validate" ->
          LET v == Verdict(e.env, e.schema, e.doc, e.opt) IN
          IF v = "unspec" \/ (e.ok <=> v = "accept") THEN "ok" ELSE "verdict:" \o v
+    [] e.op = "regex_example" -> IF Search(e.re, e.example) THEN "ok" ELSE "example-does-not-match"
     [] e.op = "example" ->
          IF J!RefVerdict(J!RefRun(J!RefInit, e.bytes, FALSE)) # "accept" THEN "malformed"
          ELSE IF ~e.parsed THEN "ok"                                   \* (unreachable: well-formed text always parses)
